@@ -181,6 +181,7 @@ type e2eCase struct {
 	Cipher int      `json:"cipher"`
 	Pos    int      `json:"pos,omitempty"` // udp: packet position of the probe in the association (0 = first)
 	Rep    int      `json:"rep,omitempty"` // udp: the probe is sent this many times in a row (0 = once)
+	Svc    bool     `json:"service,omitempty"` // tcp: the connection is handled by a service built with NewShadowsocksService (as the server does)
 }
 
 var rejectReps = []string{"127.0.0.1", "127.255.255.254", "10.1.2.3", "172.16.0.1", "172.31.255.255", "192.168.1.1", "100.64.0.1", "100.127.255.255", "169.254.169.254", "0.0.0.0", "224.0.0.1", "239.255.255.255", "255.255.255.255",
@@ -255,6 +256,9 @@ func tcpScenario(c e2eCase) *engine.Scenario {
 		}
 		key := world.MakeKey("k", world.Ciphers[c.Cipher], "secret")
 		w := world.NewTCP([]*world.Key{key}, 0, 59*time.Second)
+		if c.Svc {
+			w.UseService()
+		}
 		w.Start()
 		// a listener on every candidate so that a mistaken connect would even succeed
 		var lns []*world.Target
@@ -372,6 +376,11 @@ func tcpCases() []e2eCase {
 		{pub6, priv4}, {priv4, pub6}, {"127.0.0.1", pub4, "10.0.0.1"}, {"0.0.0.0"}, {"::"}, {"::ffff:10.0.0.1"}, {"::ffff:93.184.216.34"}}
 	for j, ans := range answers {
 		out = append(out, e2eCase{Enc: "name", Addr: fmt.Sprintf("host%d.example", j), Answer: ans, Cipher: j % 4})
+	}
+	// the same through a service built the way the server builds it
+	for _, c := range append([]e2eCase{}, out...) {
+		c.Svc = true
+		out = append(out, c)
 	}
 	return out
 }
